@@ -289,8 +289,8 @@ Proof. split; [vm_compute; reflexivity|]. split; vm_compute; reflexivity. Qed.
 (* every field value returned by from_text lies in the range of its wire field (struct.pack cannot
    fail), and every name satisfies the DNS length limits.  Partial: the hand-written types (LOC,
    GPOS, WKS, APL, SVCB, ...) are covered by the oracle only. *)
-Theorem text_then_wire_partial : forall c f st v st',
-  parse_field c f st = Ok (v, st') -> val_encodable f v.
+Theorem text_then_wire_partial : forall c f st raw st' v,
+  parse_field c f st = Ok (raw, st') -> ctor_field f raw = Ok v -> val_encodable f v.
 Proof. exact parse_field_encodable. Qed.
 Print Assumptions text_then_wire_partial.
 
